@@ -38,7 +38,7 @@ ASSUMPTIONS = ["generated string values are non-empty printable ASCII without qu
                "DIRECTIO restricted to 0/1 as in the statement (blimpy pads only for exactly 1)",
                "a torn file left by an injected fault is not judged; the retried recording is",
                "for recordings made onto existing RAW the provenance cards TELESCOP/OBSERVER/SRC_NAME are not judged (re-written by design) and inherited numeric cards may be quoted strings"]
-PROBES = ["recorded_over_previous_recording", "header_cards_mod32==0", "directio_pad_0_bytes", "directio_off_unaligned", "multi_file_last_partial",
+PROBES = ["caller_dictionary_passed_again", "recorded_over_previous_recording", "header_cards_mod32==0", "directio_pad_0_bytes", "directio_off_unaligned", "multi_file_last_partial",
           "listing_last_is_not_highest", "override_attempted", "default_header_argument", "template_loaded",
           "record_after_aborted_record", "array_source", "reducer_compared", "single_antenna_user_nants",
           "blimpy_full_walk", "end_prefixed_key", "recording_onto_existing_raw", "retry_over_leftover_files"]
@@ -595,7 +595,7 @@ def execute(sc, ctx):
                 stem = ctx.seams.path("r%dretry" % j)
             else:
                 ctx.hit("retry_over_leftover_files")       # same stem: over whatever the aborted attempt left behind
-            if not used_default:
+            if not used_default and not (op.get("reuse_dict") and header is prev_dict):
                 header = W.header_arg(hspec)
             status, exc = W.do_record(ctx, backend, stem, op2, header=header, use_default_header=used_default)
             ctx.hit("record_after_aborted_record")
@@ -615,7 +615,11 @@ def execute(sc, ctx):
         # a reused caller dictionary legitimately carries whatever the caller left in it; C12 judges
         # history effects.  Here only what the statement says about one recording is judged.
         reused = bool(op.get("reuse_dict")) and header is prev_dict and j > 0
-        blocks = judge_recording(ctx, sc, ant, el, be, backend, stem, op, {} if reused else user_cards, used_default or reused)
+        # (since fix 0897f2c record() works on a copy) a dictionary the caller passes a second time still holds the cards
+        # the caller put there, so the second recording is judged against those, like the first
+        blocks = judge_recording(ctx, sc, ant, el, be, backend, stem, op, user_cards, used_default)
+        if reused:
+            ctx.hit("caller_dictionary_passed_again")
         last_ok = (stem, op["num_blocks"], backend.blocks_per_file) if blocks and not ctx.violations else None
         ctx.sim_time += op["num_blocks"] * be["spb"] * el["B"] / ant["fs"]
         if ctx.violations and ctx.stop_on_violation:
